@@ -433,7 +433,7 @@ class ISD(model.Document):
 
   @staticmethod
   def _make_ruby_conformant(
-      isd: ISD,
+      isd: model.Document,
       isd_element: typing.Union[model.Ruby, model.Rtc],
       children: typing.List[model.ContentElement]
     ) -> typing.Tuple[typing.Optional[model.ContentElement], typing.List[model.ContentElement]]:
@@ -467,27 +467,27 @@ class ISD(model.Document):
     if rbc is not None and len(rtcs) > 0:
       return (isd_element, [rbc] + rtcs[:2])
 
-    # only the base text, if any, remains: it is presented as the contents of a span that takes the place of the ruby element
+    # only the base text, if any, remains: the ruby element and its base become spans
 
-    base_spans = []
+    def _as_span(element: model.ContentElement) -> model.Span:
+      span = model.Span(isd)
+      element.copy_to(span)
+      span.set_region(element.get_region())
+      span_children = [_as_span(c) if isinstance(c, model.Rb) else c for c in list(element)]
+      element.remove_children()
+      span.push_children(span_children)
+      return span
 
-    for base in ([rb] if rb is not None else list(rbc) if rbc is not None else []):
-      spans = list(base)
-      base.remove_children()
-      base_spans.extend(spans)
+    base = rb if rb is not None else rbc
 
-    if len(base_spans) == 0:
+    if base is None or not any(isinstance(e, model.Text) for e in base.dfs_iterator()):
       return (None, [])
 
     span = model.Span(isd)
-    span.set_id(isd_element.get_id())
-    span.set_lang(isd_element.get_lang())
-    span.set_space(isd_element.get_space())
 
-    for style_prop in isd_element.iter_styles():
-      span.set_style(style_prop, isd_element.get_style(style_prop))
+    isd_element.copy_to(span)
 
-    return (span, base_spans)
+    return (span, [_as_span(base)])
 
   @staticmethod
   def _process_element(
@@ -1519,17 +1519,26 @@ def _clone_doc_with_one_region(doc: model.ContentDocument, region_id: str):
     new_element = type(element)(new_doc)
     element.copy_to(new_element)
 
-    region = element.get_region()
-
-    if region is not None:
-      new_element.set_region(new_doc.get_region(region.get_id()))
-    
     new_children = []
 
     for child in element:
       new_child = _copy_content_element(new_doc, selected_region, associated_region, child)
       if new_child is not None:
         new_children.append(new_child)
+
+    if isinstance(new_element, (model.Ruby, model.Rtc)):
+
+      # some children of the ruby element or ruby text container may be associated with another region
+
+      new_element, new_children = ISD._make_ruby_conformant(new_doc, new_element, new_children)
+
+      if new_element is None:
+        return None
+
+    region = element.get_region()
+
+    if region is not None:
+      new_element.set_region(new_doc.get_region(region.get_id()))
 
     if len(new_children) > 0:
       new_element.push_children(new_children)
